@@ -711,20 +711,40 @@ func runC13(w *World, c *Check) {
 			continue
 		}
 		fa := NewFuncAn(w, fn)
-		for _, st := range fa.storesTo(`recv\..*\.Bytes`) {
-			addr := fa.R.R(st.Addr)
-			field := strings.TrimSuffix(strings.TrimPrefix(addr, "recv."), ".Bytes")
-			if i := strings.LastIndex(field, "."); i >= 0 {
-				field = field[i+1:]
-			}
-			places, _ := fa.BufferPlaces(st.Val)
-			for _, pl := range places {
-				if !strings.HasSuffix(pl.What, "."+field+".Bytes") {
+		for _, b := range fn.Blocks {
+			for _, in := range b.Instrs {
+				st, isSt := in.(*ssa.Store)
+				if !isSt {
 					continue
 				}
-				c.Decide(pl.Off == "0", "C13.flags", FuncKey(fn), "received-octets-first:"+field, w.Pos(InstrPos(st)),
-					"when "+field+" is brought up to 32 bits the received octets stay at the front (flag i keeps its number)",
-					"the received octets are placed at offset "+pl.Off+": "+placesString(places))
+				// a store into the Bytes of a BIT STRING value (the receiver's field, or a local
+				// copy that is assigned to it afterwards)
+				fad, isFA := st.Addr.(*ssa.FieldAddr)
+				if !isFA {
+					continue
+				}
+				pt, isPtr := fad.X.Type().Underlying().(*types.Pointer)
+				if !isPtr || !strings.HasSuffix(pt.Elem().String(), "encoding/asn1.BitString") {
+					continue
+				}
+				stt, isStruct := pt.Elem().Underlying().(*types.Struct)
+				if !isStruct || stt.Field(fad.Field).Name() != "Bytes" {
+					continue
+				}
+				addr := fa.R.R(st.Addr)
+				field := strings.TrimSuffix(addr, ".Bytes")
+				if i := strings.LastIndex(field, "."); i >= 0 {
+					field = field[i+1:]
+				}
+				places, _ := fa.BufferPlaces(st.Val)
+				for _, pl := range places {
+					if !strings.HasSuffix(pl.What, ".Bytes") {
+						continue
+					}
+					c.Decide(pl.Off == "0", "C13.flags", FuncKey(fn), "received-octets-first:"+field, w.Pos(InstrPos(st)),
+						"when "+field+" is brought up to 32 bits the received octets stay at the front (flag i keeps its number)",
+						"the received octets are placed at offset "+pl.Off+": "+placesString(places))
+				}
 			}
 		}
 	}
